@@ -124,15 +124,26 @@ def run_scratch(ids, checks=None):
                 print(i, "patch does not apply:", out[-300:])
                 continue
             env = dict(os.environ, VERIF_REPO=wt)
+            rec = {}
             for p in props:
+                t0 = time.time()
                 rc, out = sh([os.path.join(VERIF, "check"), p, "quick"], cwd=VERIF, timeout=3600, env=env)
                 viol = [l for l in out.splitlines() if l.startswith("VIOLATION")]
                 detail = [l for l in out.splitlines() if l.startswith("violation:")]
                 herr = [l for l in out.splitlines() if l.startswith("HARNESS-ERROR")]
-                for v in viol:
+                rec[p] = dict(exit=rc, caught=(rc == 1 and bool(viol)), violations=detail[:4], harness_error=herr[:2], wall_s=round(time.time() - t0, 1), tree="scratch worktree of /repo HEAD + patch (VERIF_REPO)")
+                for k, v in enumerate(viol):
                     path = v.split("replay=")[1].strip()
                     if os.path.exists(path):
+                        if k == 0 and p == meta["property"] and os.environ.get("SEEDED_RECORD"):
+                            shutil.copy(path, os.path.join(d, "witness-%s.json" % p))
                         os.unlink(path)
+            if os.environ.get("SEEDED_RECORD"):
+                rp = os.path.join(d, "result.json")
+                old = json.load(open(rp)) if os.path.exists(rp) else {}
+                old.setdefault("checks", {}).update(rec)
+                old["at"] = time.strftime("%Y-%m-%d %H:%M:%S")
+                json.dump(old, open(rp, "w"), indent=1)
                 print(i, p, "exit", rc, "CAUGHT" if (rc == 1 and viol) else "missed", (detail[:1] or herr[:1] or [""])[0][:200], "[scratch]")
         finally:
             sh(["git", "-C", REPO, "worktree", "remove", "--force", wt])
